@@ -29,6 +29,11 @@ func parseLen(p []byte) (int, error) {
 		return -1, nil
 	}
 
+	// RESP lengths are canonical decimal numbers: no leading zeros, and short enough not to overflow
+	if (p[0] == '0' && len(p) > 1) || len(p) > 10 {
+		return -1, codec.ErrInvalidResp
+	}
+
 	var n int
 	for _, b := range p {
 		n *= 10
